@@ -1221,15 +1221,15 @@ impl<'a, S: Storage> BTree<'a, S> {
             leaf.update_cell_value_shrink(cell_index, new_value)?;
             Ok(true)
         } else {
+            // delete_cell() gives back the slot but not the old cell's bytes (they become
+            // fragmentation), so the re-inserted cell must fit the contiguous free area.
             let value_len_size = varint_len(new_value.len() as u64);
-            let old_value_len_size = varint_len(old_value_len as u64);
-            let size_increase = (new_value.len() + value_len_size)
-                .saturating_sub(old_value_len + old_value_len_size);
+            let space_needed = key.len() + value_len_size + new_value.len();
 
             let page_data = self.storage.page(page_no)?;
             let leaf = LeafNode::from_page(page_data)?;
 
-            if (leaf.free_space() as usize) >= size_increase {
+            if (leaf.free_space() as usize) >= space_needed {
                 let page_data = self.storage.page_mut(page_no)?;
                 let mut leaf = LeafNodeMut::from_page(page_data)?;
                 leaf.delete_cell(cell_index)?;
